@@ -32,6 +32,27 @@ def run_seq(exe, modelrun, env, cmds, trace=False):
     return parse(out) if rc == 0 else {"error": out[-800:], "fails": [], "mism": [], "stats": {}, "counts": {}, "samples": [], "trace": []}
 
 
+def run_many(exe, modelrun, env, seqs):
+    """execute many command sequences in one driver / model process pair; returns the oracle failures (each carries its sequence)"""
+    with tempfile.NamedTemporaryFile("w", suffix=".seq", delete=False) as fh:
+        for i, cmds in enumerate(seqs):
+            fh.write("S\tp%d\tprobe\n" % i + "".join("C\t%s\n" % c for c in cmds))
+        name = fh.name
+    try:
+        rc, out = pipe(exe, modelrun, env, "run '%s'" % name, timeout=300)
+    finally:
+        os.unlink(name)
+    return parse(out)["fails"] if rc == 0 else []
+
+
+def signature(item):
+    """kind of disagreement: opcode of the disagreeing command + the two answers with numbers erased"""
+    import re
+    seq, i = item.get("sequence") or [], item.get("op_index", 0)
+    op = seq[i].split(" ")[0] if 0 <= i < len(seq) else "?"
+    return (op, item.get("what"), re.sub(r"[0-9a-f]{2,}", "#", item.get("detail", ""))[:120])
+
+
 def parse(out):
     res = {"fails": [], "mism": [], "stats": {}, "counts": {}, "samples": [], "trace": [], "error": None}
     last = None
@@ -72,43 +93,78 @@ def ddmin(cmds, still_bad):
 
 
 def neighbours(cmds):
-    """probe sequences around a disagreeing case: reads everywhere, the last command again, late prewrites, scans, gc + reads"""
+    """probe sequences around a disagreeing case, kept inside the discipline (every transaction keeps the commit ts it already
+    used in the sequence, fresh pairwise distinct ones otherwise): commit / batch rollback / cleanup / check-txn-status of every
+    transaction on every key (each twice), late prewrites, then gets; the last command again; scans; gc + reads"""
     tss, keys = set(), ["1", "2", "3", "4"]
     for c in cmds:
         for tok in c.replace(";", " ").replace(":", " ").replace(",", " ").split(" "):
             try:
                 v = int(tok, 16)
-                if v >= 0x40000:
+                if 0x40000 <= v < 0xffffffffffffffff:
                     tss.add(v)
             except ValueError:
                 pass
+    top = (max(tss) if tss else 0x40000) + 0x40000
     tss = sorted(tss)[:12] + [0xffffffffffffffff]
-    big = (max(tss[:-1]) if len(tss) > 1 else 0x40000) + 0x40000
+    starts, commit_of = [], {}
+    for c in cmds:
+        f = c.split(" ")
+        s = None
+        if f[0] in ("pw", "pl", "cm", "cl", "cs", "rb", "hb"):
+            s = f[2]
+            if f[0] == "cm":
+                commit_of.setdefault(s, f[3])
+        elif f[0] == "pr":
+            s = f[4]
+        elif f[0] == "rl":
+            s = f[3]
+            if int(f[4], 16) > 0:
+                commit_of.setdefault(s, f[4])
+        elif f[0] == "br" and f[3] != "-":
+            for x in f[3].split(","):
+                a, b = x.split(":")
+                if a not in starts:
+                    starts.append(a)
+                if int(b, 16) > 0:
+                    commit_of.setdefault(a, b)
+        if s is not None and s not in starts:
+            starts.append(s)
+    starts = starts[:4]
+    for i, s in enumerate(starts):           # fresh commit ts above everything, distinct per transaction
+        commit_of.setdefault(s, "%x" % (top + (i + 1) * 0x40000))
+    big = top + 8 * 0x40000                  # current / read ts above every commit ts
+    gets = lambda k: ["get %s %x -" % (k, big), "get %s %x -" % (k, 0xffffffffffffffff)]
     out = [cmds + [cmds[-1]], cmds + [cmds[-1], cmds[-1]]]
+    for s in starts:
+        c = commit_of[s]
+        for k in keys:
+            cm, rb, cl = "cm %s %s %s" % (k, s, c), "rb %s %s" % (k, s), "cl %s %s 0" % (k, s)
+            cs1, cs0 = "cs %s %s %x %x 1 0" % (k, s, big, big), "cs %s %s %x %x 0 0" % (k, s, big, big)
+            pw = "pw %s %s 0 1 0 0 P:%s:7:n:0" % (k, s, k)
+            for probe in ([cm, cm], [rb, rb], [cl, cl], [cs1, cs1], [cs0, cs0], [pw, pw], [cm, rb], [rb, cm], [cs1, cm], [cl, pw, cm], [pw, cm, cm]):
+                out.append(cmds + probe + gets(k))
+        out.append(cmds + ["rl 0 0 %s 0" % s, "rl 0 0 %s 0" % s] + [g for k in keys for g in gets(k)])
+        out.append(cmds + ["rl 0 0 %s %s" % (s, c), "rl 0 0 %s %s" % (s, c)] + [g for k in keys for g in gets(k)])
+        out.append(cmds + ["cm 1,2,3,4 %s %s" % (s, c), "rb 1,2,3,4 %s" % s] + [g for k in keys for g in gets(k)])
+    # a fresh directed batch for the branches that look a transaction's own record up (commit / rollback / cleanup / status
+    # check without the lock): the nested interleaving start_old < start_T < commit_T < for_update_old < commit_old on one
+    # key, built with fresh timestamps above everything in the sequence, then each finishing command of T
+    so, st, ct, fo, co = [top + (10 + 2 * i) * 0x40000 for i in range(5)]
+    cur = co + 8 * 0x40000
+    for k in keys:
+        setup_t = ["pw %s %x 0 1 0 0 P:%s:5:n:0" % (k, st, k), "cm %s %x %x" % (k, st, ct)]
+        lock_old = ["pl %s %x %x 3 0 0 0 0 0 1 %s:0" % (k, so, fo, k)]
+        pw_old = ["pw %s %x %x 1 0 0 P:%s:6:n:1" % (k, so, fo, k)]
+        cm_old = ["cm %s %x %x" % (k, so, co)]
+        cmT, rbT, clT = "cm %s %x %x" % (k, st, ct), "rb %s %x" % (k, st), "cl %s %x 0" % (k, st)
+        for setup in (setup_t + lock_old + cm_old, setup_t + lock_old + pw_old + cm_old):
+            for fin in ([cmT, cmT], [rbT], [clT], ["cs %s %x %x %x 1 0" % (k, st, cur, cur)], ["cs %s %x %x %x 0 0" % (k, st, cur, cur)],
+                        ["pw %s %x 0 1 0 0 P:%s:5:n:0" % (k, st, k)]):
+                out.append(cmds + setup + fin + ["get %s %x -" % (k, cur)])
     reads = ["get %s %x -" % (k, t) for k in keys for t in tss + [big]]
     out.append(cmds + reads)
     out.append(cmds + ["sc 0 0 4 %x -" % big, "rs 0 0 4 %x -" % big, "sc 0 0 1 %x -" % big, "rs 0 0 1 %x -" % big, "bg 1,2,3,4 %x -" % big])
-    starts = set()
-    for c in cmds:
-        f = c.split(" ")
-        if f[0] in ("pw", "pl"):
-            starts.add(f[2])
-        elif f[0] in ("cm", "cl", "cs"):
-            starts.add(f[2])
-        elif f[0] == "rb":
-            starts.add(f[2])
-        elif f[0] == "rl":
-            starts.add(f[3])
-    for s in sorted(starts):
-        for k in keys:
-            pw = "pw %s %s 0 1 0 0 P:%s:7:n:0" % (k, s, k)
-            out.append(cmds + [pw, "cm %s %s %x" % (k, s, big), "get %s %x -" % (k, big + 0x40000), pw])
-            out.append(cmds + ["cm %s %s %x" % (k, s, big), "cm %s %s %x" % (k, s, big), "rb %s %s" % (k, s), "get %s %x -" % (k, big + 0x40000)])
-            out.append(cmds + ["rb %s %s" % (k, s), "rb %s %s" % (k, s), pw])
-            out.append(cmds + ["cl %s %s 0" % (k, s), pw])
-            out.append(cmds + ["cs %s %s %x %x 1 0" % (k, s, big, big), "cs %s %s %x %x 1 0" % (k, s, big, big), pw])
-        out.append(cmds + ["rl 0 0 %s 0" % s, "rl 0 0 %s 0" % s] + reads[:8])
-        out.append(cmds + ["rl 0 0 %s %x" % (s, big), "rl 0 0 %s %x" % (s, big)] + ["get %s %x -" % (k, big + 0x40000) for k in keys])
     for t in tss[:-1]:
         out.append(cmds + ["gc 0 0 %x" % t] + ["get %s %x -" % (k, u) for k in keys for u in tss + [big] if u >= t])
     return out
@@ -167,26 +223,39 @@ def main(tier, replay):
             v.violation(describe(item, "property-oracle"))
             shown += 1
         if res["mism"] and not shown:
-            # correspondence broken: minimise, then search the neighbourhood for an oracle failure
+            # correspondence broken: minimise, then extend the disagreeing runs with probe commands on the implementation
+            # and evaluate the oracles on the extended runs before falling back to no-failing-input-found
             found = 0
-            for item in res["mism"][:3]:
-                seq = item["sequence"] or []
-                small = ddmin(seq, lambda c: bool(run_seq(exe, modelrun, env, c)["mism"])) if seq else seq
-                hit = None
-                for cand in [small] + (neighbours(small) if small else []):
-                    r2 = run_seq(exe, modelrun, env, cand)
-                    if r2["fails"]:
-                        hit = r2["fails"][0]
-                        break
-                if hit:
-                    found += 1
-                    what = hit["what"]
-                    s2 = ddmin(hit["sequence"], lambda c: any(f["what"] == what for f in run_seq(exe, modelrun, env, c)["fails"]))
-                    r3 = [f for f in run_seq(exe, modelrun, env, s2)["fails"] if f["what"] == what]
-                    obj = describe(r3[0] if r3 else hit, "property-oracle")
-                    obj["found_from_mismatch"] = {"sequence": small, "detail": item["detail"]}
-                    v.violation(obj)
+            mism = sorted(res["mism"], key=lambda it: it["class"] == "random-free")   # disciplined classes first
+            picked, seen = [], set()
+            for it in mism:                                                            # one representative per kind of disagreement
+                sg = signature(it)
+                if it["sequence"] and sg not in seen:
+                    seen.add(sg); picked.append(it)
+            picked = picked[:12]
+            hit = src = None
+            for it in picked:                       # pass 1: probes appended to the disagreeing prefix (one batched run each)
+                base = it["sequence"][:it["op_index"] + 1]
+                fails = run_many(exe, modelrun, env, [base] + neighbours(base))
+                if fails:
+                    hit, src = fails[0], it
                     break
+            if not hit:
+                for it in picked[:3]:               # pass 2: probes appended to the minimised disagreeing sequence
+                    small = ddmin(it["sequence"], lambda c: bool(run_seq(exe, modelrun, env, c)["mism"]))
+                    it["small"] = small
+                    fails = run_many(exe, modelrun, env, [small] + neighbours(small))
+                    if fails:
+                        hit, src = fails[0], it
+                        break
+            if hit and hit["sequence"]:
+                found += 1
+                what = hit["what"]
+                s2 = ddmin(hit["sequence"], lambda c: any(f["what"] == what for f in run_seq(exe, modelrun, env, c)["fails"]))
+                r3 = [f for f in run_seq(exe, modelrun, env, s2)["fails"] if f["what"] == what]
+                obj = describe(r3[0] if r3 else hit, "property-oracle")
+                obj["found_from_mismatch"] = {"sequence": src.get("small") or src["sequence"][:src["op_index"] + 1], "detail": src["detail"]}
+                v.violation(obj)
             if not found:
                 for item in res["mism"][:2]:
                     seq = item["sequence"] or []
